@@ -299,6 +299,38 @@ func (l *lay) p(num, den int) bool {
 func (l *lay) f(name string) { l.feat[name]++ }
 
 // below: a column strictly left of bd (canonical: off, which is left of every block opened inside)
+// lHasFunWord: does the expression hold a lambda written inside an atom's words (its same-line body cannot
+// be moved to the next line by the renderer)?
+func lHasFunWord(e *lEx) bool {
+	if e == nil {
+		return false
+	}
+	for _, w := range e.W {
+		if strings.Contains(w, "(fun") {
+			return true
+		}
+	}
+	for _, x := range e.Elems {
+		if lHasFunWord(x) {
+			return true
+		}
+	}
+	for _, x := range e.Stages {
+		if lHasFunWord(x) {
+			return true
+		}
+	}
+	return lHasFunWord(e.Head) || lHasFunWord(e.Cond)
+}
+
+// brk: the column of a continuation line inside a record field
+func (l *lay) brk(off int, el *lEx) int {
+	if lHasFunWord(el) {
+		return off + l.n(9)
+	}
+	return l.n(off + 9)
+}
+
 func (l *lay) below(off, bd int) int {
 	if l.o.Canon {
 		return off
@@ -611,6 +643,13 @@ func (l *lay) expr(e *lEx, off int) int {
 		if !l.o.Canon {
 			inline = l.r.Intn(2) == 0
 		}
+		// a same-line body is a block at its own column: that column must be right of the enclosing block's
+		// (psPushOffside). A line that starts left of the enclosing block (after a separator or closing token
+		// placed on a later line, after a broken record field) cannot always offer that.
+		if inline && l.col() < off {
+			inline = false
+			l.f("lambda-body:next-line-forced-left-of-block")
+		}
 		if inline {
 			l.f("lambda-body:same-line")
 			l.gap()
@@ -656,7 +695,11 @@ func (l *lay) expr(e *lEx, off int) int {
 				if bd > 0 {
 					l.f("group:separator-on-later-line")
 					l.eol()
-					l.indent(l.below(off, bd))
+					if lHasFunWord(el) {
+						l.indent(off + l.n(bd-off)) // keep the element's same-line lambda bodies right of the enclosing block
+					} else {
+						l.indent(l.below(off, bd))
+					}
 				} else if l.p(1, 6) {
 					l.gap()
 				}
@@ -670,7 +713,7 @@ func (l *lay) expr(e *lEx, off int) int {
 				if l.p(1, 5) {
 					l.f("group:break-after-field-name")
 					l.eol()
-					l.indent(l.n(off + 9))
+					l.indent(l.brk(off, el))
 				} else if l.p(1, 2) {
 					l.gap()
 				}
@@ -678,7 +721,7 @@ func (l *lay) expr(e *lEx, off int) int {
 				if l.p(1, 5) {
 					l.f("group:break-after-field-eq")
 					l.eol()
-					l.indent(l.n(off + 9))
+					l.indent(l.brk(off, el))
 				} else if l.p(1, 2) {
 					l.gap()
 				}
@@ -723,8 +766,11 @@ func (l *lay) ifExpr(e *lEx, off int) int {
 	}
 	prevInline := false
 	prev := 0
+	lowKw := false
 	body := func(b []*lSt) {
-		if lSimple(b) && (e.One || l.p(1, 3)) {
+		// (after an else/elif placed left of the enclosing block a same-line body could hold a lambda whose
+		// body would not be right of that block)
+		if lSimple(b) && (e.One || (!lowKw && l.p(1, 3))) {
 			l.f("if:then-body-same-line")
 			l.gap()
 			l.expr(b[0].E, off)
@@ -735,7 +781,6 @@ func (l *lay) ifExpr(e *lEx, off int) int {
 		prev = l.blockNext(b, off)
 		prevInline = false
 	}
-	lowKw := false
 	// keyword position after the previous body; sameLineOK: the keyword may share the line of an inline body
 	keyword := func(sameLineOK bool) (sameLine bool) {
 		lowKw = false
